@@ -23,4 +23,10 @@ TEXT = {
         "level_text": "Generated-input search: round trip, determinism and fail-closed behaviour of the three encryption APIs under every tamper kind (truncate to any length, flip any bit, append, wrong passphrase); an exhaustive sweep of every truncation length, nonce/ciphertext split and single-bit flip for payloads of 0..6 (quick) / 0..24 (thorough) bytes; value-key split and second-hash against an independent SHA-256 computation; and small indexes stored through the dhash functions into an independent in-memory dhstore (via the DHStoreAPI interface or the library's HTTP dhstore client on loopback), with garbage value keys mixed in, compared as multisets with what DHashClient.Find returns.",
         "level_note": "Trusted: crypto/sha256 and the harness's 64-byte CR_DOUBLEHASH prefix constant (from the IPNI reader-privacy spec); loopback HTTP for the http transport variant. Metadata >= 1 byte and one metadata per (provider, context) by construction of the domain.",
     },
+    "C17": {
+        "engine": "h23",
+        "technique": "property-based testing (rapid): differential against a reference expansion function written from the property statement",
+        "level_text": "Generated-input search: 30k (quick) / 2M (thorough) provider records (chain-level and contextual sets, override, metadata nil/empty/same/own per entry, main provider present or absent, metadata lists nil/shorter/equal/longer, optional JSON round trip) are served by a fake source to a real ProviderCache; GetResults is compared element-wise (context ID, metadata, peer ID, addresses) with an independent specification function; any panic is a violation.",
+        "level_note": "Trusted: the harness's reading of the statement (a missing metadata element counts as 'none of its own'; an error return is accepted for any record). Contextual sets have distinct context IDs.",
+    },
 }
